@@ -28,6 +28,25 @@ theorem glob_spec (p s : Tok) (h : '[' ∉ p) : glob p s = true ↔ GlobMatch p 
 example : glob "a*?".toList "abc".toList = true ∧ GlobMatch "a*?".toList "abc".toList := by
   refine ⟨by decide, (glob_spec _ _ (by decide)).1 (by decide)⟩
 
+/-- consecutive `*` mean what one `*` means (`fnmatch.translate` compresses them before it builds the expression) -/
+theorem star_star (p s : Tok) : glob ('*' :: '*' :: p) s = glob ('*' :: p) s := by
+  have h : Matches ('*' :: '*' :: p) s ↔ Matches ('*' :: p) s := by
+    constructor
+    · intro h
+      cases h with
+      | star _ pre1 s1 _ he1 h1 =>
+        cases h1 with
+        | star _ pre2 s2 _ he2 h2 =>
+          exact Matches.star p (pre1 ++ pre2) s2 _ (by rw [he1, he2, List.append_assoc]) h2
+        | lit _ _ _ hne => exact absurd rfl hne
+      | lit _ _ _ hne => exact absurd rfl hne
+    · intro h
+      exact Matches.star _ [] s _ rfl h
+  have := (glob_iff_matches ('*' :: '*' :: p) s).trans (h.trans (glob_iff_matches ('*' :: p) s).symm)
+  cases h1 : glob ('*' :: '*' :: p) s <;> cases h2 : glob ('*' :: p) s <;> simp_all
+
+example : glob "a**b".toList "axyb".toList = true := by decide
+
 /-- a `[` with no `]` after it (other than one right behind it or behind `[!`) is an ordinary character, and the
     characters after it are read as pattern characters again -/
 theorem unclosed_bracket_literal (p s : Tok) (h : splitClass p = none) :
